@@ -27,10 +27,11 @@ RUNS = {"quick": 3000, "thorough": 150000}
 WALL_LIMIT = {"quick": 1200, "thorough": 5 * 3600}
 PROBES = ["na_in_braces_categorical", "na_in_braces_value", "na_in_braces_hed_column", "ref_inside_parentheses", "ref_first",
           "ref_middle", "ref_last", "unknown_key", "empty_cell", "file_input", "dataframe_input", "columns_shuffled",
-          "second_call_same_kind", "shared_sidecar_second_table", "validate_between_assemblies", "two_refs_one_template"]
+          "second_call_same_kind", "shared_sidecar_second_table", "validate_between_assemblies", "two_refs_one_template",
+          "dataframe_with_non_default_row_labels"]
 RULE = ("Each run generates a sidecar of 2-5 columns drawn from {categorical, value, ignored, HED column} with 0-2 curly-brace "
         "references per template ({HED}, categorical and value columns; inside parentheses; first / middle / last position), a "
-        "table of 1-6 rows over the category keys plus n/a, empty and unknown keys (as DataFrame or TSV file, column order "
+        "table of 1-6 rows over the category keys plus n/a, empty and unknown keys (as DataFrame - with default, reversed, offset or gapped row labels - or TSV file, column order "
         "shuffled), and a history of 3-12 calls on the same objects.  Non-trivial: the history repeats an assembly call after "
         "another call and some reference meets an n/a / empty cell.  Distinct = distinct sha-256 of (scenario, results).")
 COMPONENTS = {"real": ["TabularInput / BaseInput.assemble/_handle_transforms/combine_dataframe/series_a/series_filtered",
@@ -62,7 +63,7 @@ def _init():
 
 
 PLAIN = ["Red", "Blue", "Green", "Square", "Circle", "Triangle", "Cross", "Face", "Yellow", "Black", "White", "Star"]
-COLNAMES = ["trial_type", "response", "stim", "level", "side"]
+COLNAMES = ["trial_type", "response", "stim", "level", "side", "resp-type", "block2", "Stim-2_b"]   # [a-z_\-0-9]+, any case
 VALUE_TAGS = ["Label/#", "Age/#", "ID/#"]
 
 
@@ -193,6 +194,8 @@ def generate(run_index, seed, tier):
         cols["HED"] = {"kind": "categorical", "entries": {"zz": ["Black"], "yy": ["White", ["Star"]]}, "shadow": True}
     sc = {"columns": cols, "order": order, "rows": rows, "calls": calls, "input": g.pick(["df", "df", "file"]),
           "used_refs": sorted(used), "ref_pos": ref_pos}
+    # row labels of a DataFrame handed in by the caller (a table that was filtered, sorted or concatenated before)
+    sc["index"] = g.pick(["default", "default", "default", "reversed", "offset", "gaps"])
     return sc
 
 
@@ -233,6 +236,10 @@ def shrink(sc):
             for r in c["rows"]:
                 del r[j]
             yield c
+    if sc.get("index", "default") != "default":
+        c = copy.deepcopy(sc)
+        c["index"] = "default"
+        yield c
     if sc["input"] == "file":
         c = copy.deepcopy(sc)
         c["input"] = "df"
@@ -360,7 +367,16 @@ def _make(W, sc, sidecar=None):
                 f.write("\t".join(r) + "\n")
         tab = W["TabularInput"](p, sidecar=sidecar, name="events")
     else:
-        tab = W["TabularInput"](pd.DataFrame(sc["rows"], columns=sc["order"], dtype=str), sidecar=sidecar, name="events")
+        df = pd.DataFrame(sc["rows"], columns=sc["order"], dtype=str)
+        n = len(df)
+        how = sc.get("index", "default")
+        if how == "reversed":
+            df.index = list(range(n - 1, -1, -1))
+        elif how == "offset":
+            df.index = list(range(10, 10 + n))
+        elif how == "gaps":
+            df.index = [3 * i + 1 for i in range(n)]
+        tab = W["TabularInput"](df, sidecar=sidecar, name="events")
     return tab, sidecar
 
 
@@ -376,6 +392,8 @@ def execute(sc, script=None):
 
     file_input = sc["input"] == "file"
     probe("file_input" if file_input else "dataframe_input")
+    if not file_input and sc.get("index", "default") != "default":
+        probe("dataframe_with_non_default_row_labels")
     if sc["order"] != sorted(sc["order"]):
         probe("columns_shuffled")
     for pos in sc.get("ref_pos", []):
